@@ -1,1 +1,207 @@
-//! extension harness hx01
+//! extension harness hx01 (check X01: signal delivery of compio-signal).
+//!
+//! Shared pieces of the binaries:
+//!  * `CountingAlloc`: global allocator that counts live allocations (leak observation) and overwrites freed
+//!    blocks (a handler that still reads a freed listener table then sees garbage deterministically instead of
+//!    whatever the allocator left there);
+//!  * `LWaker`: instrumented waker of a listener: counts wakes and can park INSIDE `wake()`, i.e. inside the
+//!    signal handler and inside the read section of the half-lock, using only async-signal-safe operations;
+//!  * `SlabMirror`: replica of `slab::Slab` key allocation, so that the harness knows the key (= position in the
+//!    handler's iteration order) of every listener and can bring the process-global table back to a canonical
+//!    free list between cases;
+//!  * signal numbers, disposition query.
+pub mod proto;
+
+use std::{
+    alloc::{GlobalAlloc, Layout, System},
+    sync::{
+        Arc,
+        atomic::{AtomicBool, AtomicI64, AtomicU64, Ordering},
+    },
+    task::Wake,
+    time::{Duration, Instant},
+};
+
+pub static LIVE_ALLOCS: AtomicI64 = AtomicI64::new(0);
+
+thread_local! {
+    /// allocations minus deallocations performed by this thread (no destructor, const: safe inside the allocator)
+    static TL_ALLOCS: std::cell::Cell<i64> = const { std::cell::Cell::new(0) };
+}
+
+/// allocations minus deallocations performed by the calling thread so far
+pub fn thread_allocs() -> i64 {
+    TL_ALLOCS.try_with(|c| c.get()).unwrap_or(0)
+}
+
+fn tl_add(d: i64) {
+    let _ = TL_ALLOCS.try_with(|c| c.set(c.get() + d));
+}
+pub static POISON: AtomicBool = AtomicBool::new(true);
+
+pub struct CountingAlloc;
+
+unsafe impl GlobalAlloc for CountingAlloc {
+    unsafe fn alloc(&self, l: Layout) -> *mut u8 {
+        tl_add(1);
+        LIVE_ALLOCS.fetch_add(1, Ordering::Relaxed);
+        unsafe { System.alloc(l) }
+    }
+
+    unsafe fn dealloc(&self, p: *mut u8, l: Layout) {
+        tl_add(-1);
+        LIVE_ALLOCS.fetch_sub(1, Ordering::Relaxed);
+        if l.size() <= 4096 && POISON.load(Ordering::Relaxed) {
+            unsafe { std::ptr::write_bytes(p, 0xA5, l.size()) };
+        }
+        unsafe { System.dealloc(p, l) }
+    }
+
+    unsafe fn alloc_zeroed(&self, l: Layout) -> *mut u8 {
+        tl_add(1);
+        LIVE_ALLOCS.fetch_add(1, Ordering::Relaxed);
+        unsafe { System.alloc_zeroed(l) }
+    }
+
+    unsafe fn realloc(&self, p: *mut u8, l: Layout, n: usize) -> *mut u8 {
+        unsafe { System.realloc(p, l, n) }
+    }
+}
+
+/// model signal name -> real signal number
+pub fn signo(name: &str) -> i32 {
+    match name {
+        "a" => libc::SIGUSR1,
+        "b" => libc::SIGUSR2,
+        "c" => libc::SIGHUP,
+        "k" => libc::SIGKILL,
+        _ => panic!("unknown model signal {name}"),
+    }
+}
+
+/// true when a handler is installed for `sig` (neither SIG_DFL nor SIG_IGN); does not change anything
+pub fn handler_installed(sig: i32) -> bool {
+    unsafe {
+        let mut old: libc::sigaction = std::mem::zeroed();
+        if libc::sigaction(sig, std::ptr::null(), &mut old) != 0 {
+            return false;
+        }
+        old.sa_sigaction != libc::SIG_DFL && old.sa_sigaction != libc::SIG_IGN
+    }
+}
+
+/// Instrumented waker of one listener.
+pub struct LWaker {
+    pub wakes: AtomicU64,
+    /// park inside the next wake()
+    pub arm: AtomicBool,
+    /// a thread is parked inside wake() right now
+    pub parked: AtomicBool,
+    pub release: AtomicBool,
+}
+
+impl LWaker {
+    pub fn new() -> Arc<Self> {
+        Arc::new(Self {
+            wakes: AtomicU64::new(0),
+            arm: AtomicBool::new(false),
+            parked: AtomicBool::new(false),
+            release: AtomicBool::new(false),
+        })
+    }
+
+    fn on_wake(&self) {
+        self.wakes.fetch_add(1, Ordering::SeqCst);
+        if self.arm.swap(false, Ordering::SeqCst) {
+            // we are inside signal_handler, holding the ReadGuard: only async-signal-safe calls from here
+            self.parked.store(true, Ordering::SeqCst);
+            let mut spins = 0u64;
+            while !self.release.load(Ordering::SeqCst) {
+                spins += 1;
+                if spins % 64 == 0 {
+                    let ts = libc::timespec { tv_sec: 0, tv_nsec: 200_000 };
+                    unsafe { libc::nanosleep(&ts, std::ptr::null_mut()) };
+                } else {
+                    unsafe { libc::sched_yield() };
+                }
+            }
+            self.release.store(false, Ordering::SeqCst);
+            self.parked.store(false, Ordering::SeqCst);
+        }
+    }
+}
+
+impl Wake for LWaker {
+    fn wake(self: Arc<Self>) {
+        self.on_wake();
+    }
+
+    fn wake_by_ref(self: &Arc<Self>) {
+        self.on_wake();
+    }
+}
+
+/// Replica of the key allocation of `slab::Slab` (insert takes `next`, remove pushes on the LIFO free list).
+#[derive(Clone, Debug, Default)]
+pub struct SlabMirror {
+    /// None = occupied, Some(n) = vacant with next-free n
+    ent: Vec<Option<usize>>,
+    next: usize,
+}
+
+impl SlabMirror {
+    pub fn insert(&mut self) -> usize {
+        let k = self.next;
+        if k == self.ent.len() {
+            self.ent.push(None);
+            self.next = k + 1;
+        } else {
+            self.next = self.ent[k].expect("mirror: next points at an occupied entry");
+            self.ent[k] = None;
+        }
+        k
+    }
+
+    pub fn remove(&mut self, k: usize) {
+        assert!(self.ent[k].is_none(), "mirror: removing a vacant key");
+        self.ent[k] = Some(self.next);
+        self.next = k;
+    }
+
+    pub fn vacant(&self) -> usize {
+        self.ent.iter().filter(|e| e.is_some()).count()
+    }
+
+    pub fn len(&self) -> usize {
+        self.ent.len()
+    }
+
+    pub fn is_empty(&self) -> bool {
+        self.ent.is_empty()
+    }
+}
+
+/// Wait until `f` is true; false after `limit` (a hang of the code under test, reported as data).
+pub fn wait_until(limit: Duration, mut f: impl FnMut() -> bool) -> bool {
+    let t0 = Instant::now();
+    let mut n = 0u32;
+    loop {
+        if f() {
+            return true;
+        }
+        n += 1;
+        if n < 200 {
+            std::thread::yield_now();
+        } else {
+            std::thread::sleep(Duration::from_micros(200));
+            if t0.elapsed() > limit {
+                return f();
+            }
+        }
+    }
+}
+
+pub fn watchdog() -> Duration {
+    let s = std::env::var("X01_WATCHDOG_S").ok().and_then(|v| v.parse().ok()).unwrap_or(20u64);
+    Duration::from_secs(s)
+}
